@@ -41,6 +41,11 @@ func runC08(c *Check) {
 	if r == nil {
 		return
 	}
+	// what a handler finds in the context of a message it consumes comes from the router alone: the library's own Pub/Sub
+	// hands every subscription copies that carry the Subscribe context, not the publisher's (decided as C04.O1)
+	if g := c.gochannelRoles(P + ".G"); g != nil {
+		c04FreshCopy(c, P+".G", g)
+	}
 	L, D := r.RunLoop, r.Dispatch
 	// O1 (i) chain base
 	var chainArg ssa.Value
@@ -592,6 +597,9 @@ func runC09(c *Check) {
 		return
 	}
 	c09All(c, P, r)
+	// the router's own context decorator is one of the subscriber decorators whose order C09 is about: it wraps the
+	// handler's subscriber directly, in front of the user's (decided as C08.O3)
+	c08Context(c, P+".M08", r)
 }
 
 // c09All holds the C09 obligations (also run under C08: a foreign handler's
@@ -1428,6 +1436,93 @@ func c10Lifecycle(c *Check, P string, r *RouterRoles2) {
 	c10RouterSafety(c, P, r)
 	c10CloseSignals(c, P, r)
 	Run, RH := r.Run, r.RunHandlers
+	// a handler added to a router that was started empty wakes the all-handlers-stopped watcher: AddHandler offers the
+	// "handler added" signal on every path, whatever it believes about the router's state (the flag it could look at is set
+	// by Run at a moment that is not ordered with the watcher's start)
+	if r.SelfClose != nil {
+		var sigF *types.Var
+		for _, si := range Selects(r.SelfClose) {
+			for _, cs := range si.Cases {
+				if ck := ClassifyChan(cs.Chan); !cs.Send && ck.Kind == "field" && ck.Field != r.ClosedCh && ck.Field != r.ClosingCh {
+					sigF = ck.Field
+				}
+			}
+		}
+		if sigF != nil {
+			var offers []ssa.Instruction
+			for _, si := range Selects(r.AddHandler) {
+				for _, cs := range si.Cases {
+					if ck := ClassifyChan(cs.Chan); cs.Send && ck.Kind == "field" && ck.Field == sigF {
+						offers = append(offers, si.Sel)
+					}
+				}
+			}
+			AllInstrs(r.AddHandler, func(in ssa.Instruction) {
+				if sd, ok := in.(*ssa.Send); ok {
+					if ck := ClassifyChan(sd.Chan); ck.Kind == "field" && ck.Field == sigF {
+						offers = append(offers, in)
+					}
+				}
+			})
+			if c.Floor(P+".O3", "offer of the handler-added signal in AddHandler", len(offers), 1) {
+				re := ReachEntry(r.AddHandler, NewCut().AddInstrs(offers...))
+				for i, ret := range Returns(r.AddHandler) {
+					c.Report(!re[ret], P+".O3", "HANDLER-ADDED-ALWAYS-SIGNALLED", r.AddHandler, ret.Pos(), fmt.Sprintf("AddHandler return#%d", i), "every return of AddHandler has offered the handler-added signal the watcher of a router started empty waits for")
+				}
+			}
+		}
+	}
+	// what Started() hands out exists from the moment the handler exists: the channel is made with the handler record, and
+	// never replaced (a caller that asked before the handler ran would wait on nil, or on a channel nobody closes)
+	if r.HStartedCh != nil {
+		ns := 0
+		for _, fn := range r.Funcs {
+			for _, st := range FieldStores(fn, r.HStartedCh) {
+				ns++
+				_, isMk := firstOrigin(st.Val).(*ssa.MakeChan)
+				c.Report(isMk && (fn == r.AddHandler || allocatesNamed(fn, r.HandlerT)), P+".O3", "STARTED-CHANNEL-MADE-WITH-THE-HANDLER", fn, st.Pos(), "store to handler."+r.HStartedCh.Name(), "the channel Started() returns is created where the handler record is built, once")
+			}
+		}
+		c.Floor(P+".O3", "creation of the handler's started channel", ns, 1)
+	}
+	// Close ends the handlers by cancelling the context Run derived for them: after the closing signal Run calls that cancel
+	// function in place (subscribers that end a subscription only when its context ends would keep Close waiting until the time-out)
+	{
+		var cancels []ssa.Value
+		for _, cl := range CallsTo(Run, nWithCancel) {
+			if call, isCall := cl.(*ssa.Call); isCall {
+				for _, ref := range *call.Referrers() {
+					if e, isE := ref.(*ssa.Extract); isE && e.Index == 1 {
+						cancels = append(cancels, e)
+					}
+				}
+			}
+		}
+		var recvs []ssa.Instruction
+		for _, op := range BlockingOps(Run) {
+			if op.Kind == "recv" && AllOrigins(op.Chan, IsFieldLoad(r.ClosingCh)) {
+				recvs = append(recvs, op.Ins)
+			}
+		}
+		if c.Floor(P+".O3", "Run: derived cancellable context and wait for the closing signal", b2i(len(cancels) > 0)+b2i(len(recvs) > 0), 2) {
+			okC := false
+			for _, cl := range CallsIn(Run) {
+				if _, isDefer := cl.(*ssa.Defer); isDefer || cl.Parent() != Run {
+					continue
+				}
+				for _, cv := range cancels {
+					if AllOrigins(cl.Common().Value, func(o ssa.Value) bool { return o == cv }) {
+						for _, rv := range recvs {
+							if Dominates(Run, rv, cl) {
+								okC = true
+							}
+						}
+					}
+				}
+			}
+			c.Report(okC, P+".O3", "RUN-CANCELS-THE-HANDLERS-ON-CLOSE", Run, recvs[0].Pos(), "after <-closing", "once the closing signal is raised Run cancels the context its handlers' subscriptions were made with (not only when Run returns)")
+		}
+	}
 	// the goroutine that closes the router once every handler has stopped is started by every Run, whatever is registered
 	// at that moment (handlers may be added to a running router; when they end the router must still close itself)
 	if r.SelfClose != nil {
